@@ -47,9 +47,9 @@ def odml_tuple_export(odml_tuples):
     str_tuples = ""
     for val in odml_tuples:
         str_val = "(%s)" % ";".join(val)
-        # The tuples are separated by commas; a tuple containing a comma or a
-        # double quote itself has to be quoted like a csv field.
-        if "," in str_val or '"' in str_val:
+        # The tuples are separated by commas; a tuple containing a comma, a double
+        # quote or a line break itself has to be quoted like a csv field.
+        if any(char in str_val for char in ',"\n\r'):
             str_val = '"%s"' % str_val.replace('"', '""')
 
         if str_tuples:
